@@ -186,7 +186,7 @@ def batch_diff(rp, sess, label, schema, marker):
     return inside_alloc, None
 
 
-def agent_side(rp, lc, sess, row, nodes, scratch):
+def agent_side(rp, lc, sess, row, nodes, scratch, smt_env=0):
     """a pilot of `nodes` whole nodes on the platform of `row`: the figures of the job (real _prepare_pilot) against what
     the agent's resource manager makes of the configuration it is handed (real ResourceManager._init_from_scratch of the
     platform's resource manager, in an allocation of exactly the nodes the job asked for).  Returns (job, agent) or None
@@ -195,19 +195,21 @@ def agent_side(rp, lc, sess, row, nodes, scratch):
     kind = (row['rm'] or '').lower()
     if kind not in ('slurm', 'torque', 'lsf', 'pbspro', 'cobalt', 'ccm', 'fork'):
         return None
-    res = size_real(rp, lc, sess, row['label'], row['schema'], {'nodes': nodes}, 0)
+    # (smt_env: the application overrides the platform's hardware-thread level with $RADICAL_SMT; the job is sized with it
+    #  and its environment carries it to the agent)
+    res = size_real(rp, lc, sess, row['label'], row['schema'], {'nodes': nodes}, smt_env)
     if not isinstance(res, dict):
         return None
     hosts = [0, 1, 6, 7][:nodes]                       # node001, node002, node010, gpu-a of c18.HOSTS
     # (an LSF host file names a host once per physical core; the other node files once per node)
-    per   = max(1, res['cores_per_node'] // max(1, row['smt'])) if kind == 'lsf' else 1
+    per   = max(1, res['cores_per_node'] // max(1, smt_env or row['smt'])) if kind == 'lsf' else 1
     case = {'op': 'init', 'kind': kind, 'exec_vnode': None, 'stale': None,
             'cfg': {'cpn': res['cores_per_node'], 'gpn': res['gpus_per_node'], 'smt': row['smt'], 'nodes': res['nodes'],
                     'cores': res['cores'], 'gpus': res['gpus'], 'backup': 0, 'blocked_cores': list(row['blockedCores']),
                     'blocked_gpus': list(row['blockedGpus']), 'agent_nodes': 0, 'service_nodes': 0, 'env_gpus': None, 'env_gpu_ids': 0},
             'lines': [{'id': h, 'login': False, 'batch': False} for h in hosts for _ in range(per)],
             'hosts': [{'id': h, 'login': False, 'batch': False} for h in hosts],
-            'env_cpus': None, 'detected': 64, 'reach': list(range(len(c18.HOSTS))), 'hang': []}
+            'env_cpus': None, 'detected': 64, 'reach': list(range(len(c18.HOSTS))), 'hang': [], 'radical_smt': smt_env}
     rm, shared, err = c18.run_real(rp, case, scratch)
     if rm == 'error':
         return res, {'error': err}
@@ -460,14 +462,15 @@ def run(ctx):
         seen_a.add((r['label'], r['schema']))
         # every platform that blocks something or has hardware threads, a fifth of the others
         if not (r['blockedCores'] or r['blockedGpus'] or r['smt'] > 1) and (len(seen_a) % 5): continue
-        for nodes in (1, 2):
-            ja = agent_side(rp, lc, sess, r, nodes, ctx.scratch)
+        for nodes, smt_env in ((1, 0), (2, 0)) + (((1, 2 if r['smt'] != 2 else 4),) if r['smt'] > 1 else ()):
+            ja = agent_side(rp, lc, sess, r, nodes, ctx.scratch, smt_env)
             if ja is None: continue
             na += 1
-            ctx.case({'agent_side': [r['label'], r['schema'], nodes]}, nontrivial=bool(r['blockedCores'] or r['blockedGpus']))
+            ctx.case({'agent_side': [r['label'], r['schema'], nodes, smt_env]}, nontrivial=bool(r['blockedCores'] or r['blockedGpus'] or smt_env))
             bad = agent_side_monitor(*ja)
             if bad:
-                ctx.fail(bad[0] + ':' + r['label'], bad[1], {'kind': 'agent_side', 'label': r['label'], 'schema': r['schema'], 'nodes': nodes})
+                ctx.fail(bad[0] + ':' + r['label'], bad[1] + (' ($RADICAL_SMT=%d)' % smt_env if smt_env else ''),
+                         {'kind': 'agent_side', 'label': r['label'], 'schema': r['schema'], 'nodes': nodes, 'smt_env': smt_env})
     ctx.obligation('the agent\'s resource manager, run on the configuration _prepare_pilot hands it in an allocation of the nodes the job asks '
                    'for, offers the node count, usable cores per node, cores and GPUs of the job (%d pilots)' % na, 'tie', na > 0, '')
     ctx.sample({'op': ops[0], 'real_prepare_pilot': impl[0]}, limit=1)
@@ -497,7 +500,7 @@ def replay(ctx, data):
     if i['kind'] == 'agent_side':
         lc = make_launcher(rp, ctx.scratch)
         rows = [r for r in translate.resource_rows(common.SRC) if r['label'] == i['label'] and r['schema'] == i['schema']]
-        ja = agent_side(rp, lc, sess, rows[0], i['nodes'], ctx.scratch)
+        ja = agent_side(rp, lc, sess, rows[0], i['nodes'], ctx.scratch, i.get('smt_env', 0))
         bad = agent_side_monitor(*ja) if ja else None
         print(ja); print(bad)
         return not bad
